@@ -136,6 +136,10 @@ pub enum Step {
     Reset,
     /// do nothing for this much virtual time
     Wait { ms: u64 },
+    /// server: accept every connection and answer each complete, strictly
+    /// well-formed HTTP/1.1 request with `response` (an `X-Seq: <conn>.<n>` line
+    /// is added); never finishes, counts as settled
+    ServeH1 { response_head: String, body: Vec<u8> },
     /// stop here forever (a stalled peer)
     Stall,
     /// marks the point where the peer has reached its goal
@@ -155,19 +159,26 @@ pub struct Peer {
     pub connect_failed: bool,
     pub accepted_from: Option<SocketAddr>,
     pub h1_seen: usize,
+    /// further connections accepted by `ServeH1`
+    pub more: Vec<Conn>,
+    served: Vec<usize>,
 }
 
 impl Peer {
     pub fn client(name: &str, script: Vec<Step>) -> Peer {
-        Peer { name: name.into(), listener: None, conn: Conn::closed(), script, pc: 0, wake_ns: None, deferred: None, deferred_turn: false, connect_failed: false, accepted_from: None, h1_seen: 0 }
+        Peer { name: name.into(), listener: None, conn: Conn::closed(), script, pc: 0, wake_ns: None, deferred: None, deferred_turn: false, connect_failed: false, accepted_from: None, h1_seen: 0, more: vec![], served: vec![] }
     }
     pub fn server(name: &str, listen: SocketAddr, script: Vec<Step>) -> Peer {
         let l = bind_reuse(listen);
         l.set_nonblocking(true).ok();
-        Peer { name: name.into(), listener: Some(l), conn: Conn::closed(), script, pc: 0, wake_ns: None, deferred: None, deferred_turn: false, connect_failed: false, accepted_from: None, h1_seen: 0 }
+        Peer { name: name.into(), listener: Some(l), conn: Conn::closed(), script, pc: 0, wake_ns: None, deferred: None, deferred_turn: false, connect_failed: false, accepted_from: None, h1_seen: 0, more: vec![], served: vec![] }
     }
     pub fn done(&self) -> bool {
-        self.pc >= self.script.len() || matches!(self.script.get(self.pc), Some(Step::Done) | Some(Step::Stall))
+        self.pc >= self.script.len() || matches!(self.script.get(self.pc), Some(Step::Done) | Some(Step::Stall) | Some(Step::ServeH1 { .. }))
+    }
+    /// every connection of a serving peer, in accept order
+    pub fn conns(&self) -> Vec<&Conn> {
+        std::iter::once(&self.conn).chain(self.more.iter()).collect()
     }
     pub fn reached_goal(&self) -> bool {
         self.pc >= self.script.len() || matches!(self.script.get(self.pc), Some(Step::Done))
@@ -305,6 +316,40 @@ impl Peer {
                     }
                     Some(_) => break,
                 },
+                Step::ServeH1 { response_head, body } => {
+                    if let Some(l) = self.listener.as_ref() {
+                        while let Ok((s, from)) = l.accept() {
+                            if self.conn.stream.is_none() && self.conn.rx.is_empty() && self.served.is_empty() {
+                                self.conn = Conn::new(s);
+                                self.accepted_from = Some(from);
+                            } else {
+                                self.more.push(Conn::new(s));
+                            }
+                            self.served.push(0);
+                            progressed = true;
+                        }
+                    }
+                    let now = ctx.now_ns;
+                    let served = &mut self.served;
+                    for (ci, c) in std::iter::once(&mut self.conn).chain(self.more.iter_mut()).enumerate() {
+                        if ci >= served.len() {
+                            break;
+                        }
+                        progressed |= c.pump_read(now);
+                        let (msgs, _, _) = super::h1::parse_all(&c.rx, false, c.eof || c.reset);
+                        while served[ci] < msgs.len() {
+                            let mut r = format!("{response_head}\r\nX-Seq: {ci}.{}\r\nContent-Length: {}\r\n\r\n", served[ci], body.len()).into_bytes();
+                            if msgs[served[ci]].method() != "HEAD" {
+                                r.extend_from_slice(&body);
+                            }
+                            c.tx.extend_from_slice(&r);
+                            served[ci] += 1;
+                            progressed = true;
+                        }
+                        progressed |= c.pump_write();
+                    }
+                    break;
+                }
                 Step::Stall | Step::Done => break,
             }
         }
